@@ -14,6 +14,8 @@ def run(tier, seed):
     gen_universe(rep, "vf.oracles2:c18_embed", "vf.oracles2:gen_inline_texts", tier, "MarkdownIt.parse", "the same one-line inline text yields the same inline tokens in paragraph / ATX heading / list item / block quote / table cell",
                  ["commonmark", "cm+table+strike"], "all one-line concatenations of <= k inline fragments; distinct = distinct child-type sequences", "one-line inline texts")
     lines_universe(rep, "vf.oracles2:c18_options", tier, "RendererHTML", "xhtmlOut/breaks/langPrefix/highlight leave tokens untouched and change HTML only in their documented place", cfgs=["commonmark", "js-default"], wrapped=False)
+    from .. import frame as _frame
+    _frame.add_env_writer_obligations(rep, "C18")
     rep.explanation = ("Mixed. Deductive (when the reads back end ran): READS obligations - the parse side reads none of xhtmlOut/breaks/langPrefix/highlight; the renderer reads them only in the documented functions. "
                        "Bounded: the embedding clause and the option-inertness relations on the real API.")
     rep.trusted_base += STD_TRUST
